@@ -178,15 +178,11 @@ impl Value {
             Self::UnaryOp(op, v) => {
                 let value = v.do_evaluate(scope, true)?;
                 match (op, value) {
-                    // Only false and null are falsey, all numbers are true.
-                    (
-                        Operator::Not,
-                        css::Value::Numeric(..) | css::Value::True,
-                    ) => css::Value::False,
-                    (
-                        Operator::Not,
-                        css::Value::False | css::Value::Null,
-                    ) => css::Value::True,
+                    // Only false and null are falsey.  (But `not (a: b)`
+                    // in an import condition ends up here and is kept.)
+                    (Operator::Not, v) if !matches!(v, css::Value::Map(_)) => {
+                        (!v.is_true()).into()
+                    }
                     (Operator::Minus, css::Value::Numeric(v, _)) => {
                         css::Value::Numeric(-&v, true)
                     }
